@@ -95,9 +95,39 @@ def param_root(e, known):
             return None
 
 
+_SUMMARY: dict = {}  # (id(repo), callee ident) -> (status of what it may return, origin attribute)
+_IN_PROGRESS: set = set()
+
+
+def return_summary(repo, callee):
+    """What a repository function may hand back: BATTR (an attribute of its object, or a view / alias of one -- `return self.log_q`),
+    BORROWED (one of its parameters) or OWNED (a new object on every path).  Recursive calls are taken as OWNED."""
+    key = (id(repo), callee.ident)
+    if key in _SUMMARY:
+        return _SUMMARY[key]
+    if key in _IN_PROGRESS:
+        return (OWNED, None)
+    _IN_PROGRESS.add(key)
+    try:
+        o = analyse_full(callee, repo)
+        st, org = OWNED, None
+        for rst, rorg in o.returns:
+            if rst == BATTR:
+                st, org = BATTR, rorg or org
+            elif rst == BORROWED and st != BATTR:
+                st = BORROWED
+        _SUMMARY[key] = (st, org)
+    finally:
+        _IN_PROGRESS.discard(key)
+    return _SUMMARY[key]
+
+
 class Ownership:
-    def __init__(self, func_node, params):
+    def __init__(self, func_node, params, finfo=None, repo=None):
         self.func = func_node
+        self.finfo, self.repo = finfo, repo
+        self.returns = []  # (status, origin attribute) of every returned expression
+        self._call_origin = None
         self.env = {p: BORROWED for p in params}
         self.proot = {p: p for p in params}  # local name -> parameter it aliases, when known
         self._cur_proot = None
@@ -106,6 +136,9 @@ class Ownership:
         self.sinks = []  # (node, description, status, name)
         self.origin = {}  # local name -> attribute it was loaded from (self.log_w -> "log_w"), when known
         self._cur_origin = None
+        self._cur_elem = None
+        self.elem_of = {}  # local name -> (text of the item expression, parameter / attribute the container is rooted in)
+        self.elem_sinks = []  # in-place updates through a name bound to an item of a borrowed container
 
     # ------------------------------------------------------------ expressions
     def status(self, e) -> str:
@@ -150,9 +183,39 @@ class Ownership:
                         return self.status(e.args[0])
                     return self.status(recv)
                 return self.status(e.args[0]) if e.args else OWNED
+            # a method of the same object / a function of the package: what it may return is known from its own analysis
+            summ = self._summary(e, name, recv)
+            if summ is not None and summ[0] != OWNED:
+                if summ[0] == BATTR:
+                    self._call_origin = summ[1]
+                    return BATTR
+                # hands back one of its parameters: borrowed unless every array argument is the caller's own
+                if any(self.status(a_) != OWNED for a_ in list(e.args) + [k.value for k in e.keywords]):
+                    return BORROWED
             return OWNED  # results of other calls are new objects (assumption, see DESIGN)
         # arithmetic, comparisons, literals, comprehensions: new objects
         return OWNED
+
+    def _summary(self, call, name, recv):
+        if self.repo is None or self.finfo is None or name is None:
+            return None
+        callee = None
+        try:
+            me = self.finfo.params[0] if self.finfo.cls is not None and self.finfo.params else None
+            if recv is not None and isinstance(recv, ast.Name) and recv.id == me:
+                callee = self.finfo.cls.resolve(name)
+            elif recv is None:
+                tgt = self.repo.resolve_name(self.finfo.module, name, self.repo.function_imports(self.finfo))
+                callee = tgt if hasattr(tgt, "params") and hasattr(tgt, "node") else None
+        except Exception:
+            return None
+        if callee is None or not isinstance(getattr(callee, "node", None), (ast.FunctionDef, ast.AsyncFunctionDef)):
+            return None
+        if any(isinstance(x, (ast.Yield, ast.YieldFrom)) for x in ast.walk(callee.node)):
+            return None
+        if "property" in {getattr(d, "id", getattr(d, "attr", None)) for d in callee.node.decorator_list}:
+            return None
+        return return_summary(self.repo, callee)
 
     def _sink(self, rec, expr):
         self.sinks.append(rec)
@@ -162,6 +225,12 @@ class Ownership:
     def bind(self, target, st):
         if isinstance(target, ast.Name):
             self.env[target.id] = st
+            self.elem_of.pop(target.id, None)
+            if st == ELEMENT and isinstance(getattr(self, "_cur_elem", None), ast.Subscript):
+                e_ = self._cur_elem
+                root = param_root(e_.value, self.proot)
+                org = origin_attr(e_.value, self.origin)
+                self.elem_of[target.id] = (ast.unparse(e_)[:40], ("param", root) if root is not None else (("attr", org) if org is not None else None))
             self.origin[target.id] = self._cur_origin if st == BATTR else None
             self.proot[target.id] = self._cur_proot if st == BORROWED else None
         elif isinstance(target, (ast.Tuple, ast.List)):
@@ -223,7 +292,10 @@ class Ownership:
             self.scan_sinks(s.value)
             st = self.status(s.value)
             self._cur_origin = origin_attr(s.value, self.origin)
+            if self._cur_origin is None and st == BATTR and isinstance(s.value, ast.Call):
+                self._cur_origin = self._call_origin
             self._cur_proot = param_root(s.value, self.proot)
+            self._cur_elem = s.value if st == ELEMENT else None
             for t in s.targets:
                 self.store_sink(t, s)
                 self.bind(t, st)
@@ -239,6 +311,10 @@ class Ownership:
             self.store_sink(s.target, s)
             if isinstance(s.target, ast.Name) and self.env.get(s.target.id) == BATTR:
                 self.sinks.append((s, f"{s.target.id} {type(s.op).__name__.lower()}= ... (in place)", BATTR, s.target.id))
+            elif isinstance(s.target, ast.Name) and self.env.get(s.target.id) == ELEMENT and s.target.id in self.elem_of:
+                # `t = values[0]; t += v`: when the items are arrays (0-d backend scalars are) the update happens inside the container's first item
+                base, root = self.elem_of[s.target.id]
+                self.elem_sinks.append((s, f"{s.target.id} {type(s.op).__name__.lower()}= ... (in place, `{s.target.id}` is the item {base})", root, s.target.id))
         elif isinstance(s, ast.If):
             self.scan_sinks(s.test)
             base = dict(self.env)
@@ -258,12 +334,14 @@ class Ownership:
                 self.scan_sinks(s.iter)
             base = dict(self.env)
             n0 = len(self.sinks)
+            n0e = len(self.elem_sinks)
             n0c = len(self.calls)
             for _ in range(2):
                 if not isinstance(s, ast.While):
                     self._cur_proot = None
                     self.bind(s.target, BORROWED)
                 del self.sinks[n0:]
+                del self.elem_sinks[n0e:]
                 del self.calls[n0c:]
                 self.block(s.body)
                 self.env = self._merge([base, self.env])
@@ -289,6 +367,11 @@ class Ownership:
         elif isinstance(s, (ast.Return, ast.Expr)):
             if s.value is not None:
                 self.scan_sinks(s.value)
+                if isinstance(s, ast.Return):
+                    for v_ in (s.value.elts if isinstance(s.value, ast.Tuple) else [s.value]):
+                        st_ = self.status(v_)
+                        org_ = origin_attr(v_, self.origin) or (self._call_origin if st_ == BATTR and isinstance(v_, ast.Call) else None)
+                        self.returns.append((st_, org_))
         elif hasattr(ast, "Match") and isinstance(s, ast.Match):
             base = dict(self.env)
             envs = []
@@ -323,8 +406,9 @@ def analyse(finfo, with_origin: bool = False):
     return o.sinks
 
 
-def analyse_full(finfo):
-    """The Ownership object of one function after the walk (sinks, recorded call sites, parameter roots)."""
+def analyse_full(finfo, repo=None):
+    """The Ownership object of one function after the walk (sinks, recorded call sites, parameter roots).
+    With *repo*, results of calls to methods of the same object / functions of the package get the callee's return summary."""
     node = finfo.node
     a = node.args
     params = [x.arg for x in a.posonlyargs + a.args + a.kwonlyargs]
@@ -332,6 +416,6 @@ def analyse_full(finfo):
         params.append(a.vararg.arg)
     if a.kwarg:
         params.append(a.kwarg.arg)
-    o = Ownership(node, params)
+    o = Ownership(node, params, finfo, repo)
     o.block(node.body)
     return o
